@@ -359,6 +359,219 @@ impl Prop for Frames {
     }
 }
 
+
+// ---------------------------------------------------------------------------------------
+// Part `chunked-bodies`: the same frames as they arrive from the wire -- an HTTP body delivered in
+// several chunks, with or without an announced length -- through `RequestContents::from_body`, the entry
+// point of the server for requests and of the client for replies.
+
+#[derive(Debug, Clone)]
+pub struct ChunkCase {
+    pub msg: Msg,
+    /// 0 = channel body (no announced length), 1 = stream body (no announced length), 2 = one buffer with its length
+    pub body_kind: u8,
+    /// cut positions as fractions of the frame length (2^-16 units); equal cuts give empty chunks
+    pub cuts: Vec<u16>,
+    /// 0 = intact, 1 = one bit flipped, 2 = truncated, 3 = extended by extra bytes in a chunk of their own,
+    /// 4 = extended inside the last chunk
+    pub damage: u8,
+    pub noise: u64,
+    /// yield between chunks (the reader sees `Pending` in between)
+    pub paced: bool,
+}
+
+pub struct Chunked;
+
+macro_rules! chunked_for {
+    ($name:ident, $ty:ty) => {
+        async fn $name(value: &$ty, case: &ChunkCase) -> Result<(usize, usize), Fail> {
+            use datacake_rpc::RequestContents;
+            let frame = to_view_bytes(value).map_err(|e| Fail { signature: "serialise-failed".into(), message: format!("to_view_bytes failed: {e}") })?;
+            let n = frame.len();
+            let root = std::mem::size_of::<rkyv::Archived<$ty>>();
+            let mut bytes = frame.to_vec();
+            let mut tail_chunk: Option<Vec<u8>> = None;
+            match case.damage {
+                1 => {
+                    let bit = (case.noise % (n as u64 * 8)) as usize;
+                    bytes[bit / 8] ^= 1 << (bit % 8);
+                },
+                2 => bytes.truncate((case.noise % n as u64) as usize),
+                3 | 4 => {
+                    let extra: Vec<u8> = (0..1 + (case.noise % 9) as usize).map(|j| (case.noise >> (j * 5)) as u8).collect();
+                    if case.damage == 3 {
+                        tail_chunk = Some(extra);
+                    } else {
+                        bytes.extend_from_slice(&extra);
+                    }
+                },
+                _ => {},
+            }
+            // chunk boundaries
+            let mut at: Vec<usize> = case.cuts.iter().map(|c| (*c as usize * (bytes.len() + 1)) >> 16).collect();
+            at.sort();
+            let mut chunks: Vec<Vec<u8>> = vec![];
+            let mut prev = 0;
+            for a in at {
+                chunks.push(bytes[prev..a].to_vec());
+                prev = a;
+            }
+            chunks.push(bytes[prev..].to_vec());
+            if let Some(t) = tail_chunk {
+                bytes.extend_from_slice(&t);
+                chunks.push(t);
+            }
+            let n_chunks = chunks.len();
+            let body = match case.body_kind {
+                0 => {
+                    let (mut tx, body) = hyper::Body::channel();
+                    let paced = case.paced;
+                    tokio::spawn(async move {
+                        for c in chunks {
+                            if tx.send_data(bytes::Bytes::from(c)).await.is_err() {
+                                return;
+                            }
+                            if paced {
+                                tokio::task::yield_now().await;
+                            }
+                        }
+                    });
+                    body
+                },
+                1 => hyper::Body::wrap_stream(futures::stream::iter(chunks.into_iter().map(|c| Ok::<_, std::io::Error>(bytes::Bytes::from(c))))),
+                _ => hyper::Body::from(bytes.clone()),
+            };
+            let got = <$ty as RequestContents>::from_body(datacake_rpc::Body::new(body)).await;
+            if case.damage == 0 {
+                let view = match got {
+                    Ok(v) => v,
+                    Err(s) => {
+                        return Err(Fail {
+                            signature: "valid-frame-refused".into(),
+                            message: format!("a valid {n}-byte frame delivered as {n_chunks} chunks (body kind {}) was refused: {:?}", case.body_kind, s),
+                        })
+                    },
+                };
+                let back: Result<$ty, _> = view.deserialize_view();
+                ensure!(matches!(&back, Ok(b) if b == value), "roundtrip-differs", "value read from a {n_chunks}-chunk body differs from the one sent: {:?}", value);
+                ensure!(view.as_bytes() == &frame[..], "roundtrip-differs", "bytes read from a {n_chunks}-chunk body differ from the frame");
+            } else if bytes.len() < root + 4 || !trailer_matches(&bytes) {
+                match got {
+                    Ok(_) => {
+                        return Err(Fail {
+                            signature: if bytes.len() < root + 4 { "short-frame-accepted" } else { "bad-checksum-accepted" }.into(),
+                            message: format!(
+                                "a damaged body (damage kind {}, {} bytes on the wire, valid frame {n} bytes) delivered as {n_chunks} chunks (body kind {}) was accepted",
+                                case.damage,
+                                bytes.len(),
+                                case.body_kind
+                            ),
+                        })
+                    },
+                    Err(s) => ensure!(
+                        s.code == ErrorCode::InvalidPayload,
+                        "wrong-refusal-kind",
+                        "a damaged body was refused with {:?} instead of an invalid-payload status",
+                        s
+                    ),
+                }
+            }
+            Ok((n, n_chunks))
+        }
+    };
+}
+
+chunked_for!(chunked_fixed, Fixed);
+chunked_for!(chunked_text, Text);
+chunked_for!(chunked_blob, Blob);
+chunked_for!(chunked_nested, Nested);
+chunked_for!(chunked_unit, Unit);
+chunked_for!(chunked_status, Status);
+
+impl Prop for Chunked {
+    type Case = ChunkCase;
+
+    fn id(&self) -> &'static str {
+        "C12"
+    }
+
+    fn part(&self) -> &'static str {
+        "chunked-bodies"
+    }
+
+    fn width(&self) -> usize {
+        140
+    }
+
+    fn breadcrumbs(&self) -> bool {
+        true
+    }
+
+    fn gen(&self, src: &mut Src) -> ChunkCase {
+        let msg = gen_msg(src);
+        let body_kind = src.weighted(&[4, 4, 1]) as u8;
+        let n_cuts = *src.pick(&[0usize, 1, 2, 2, 3, 3, 5, 11]);
+        let cuts = (0..n_cuts)
+            .map(|_| match src.weighted(&[6, 1, 1, 1]) {
+                0 => src.word() as u16,
+                1 => 0,
+                2 => u16::MAX,
+                _ => 1 << 15,
+            })
+            .collect();
+        let damage = src.weighted(&[5, 2, 2, 3, 1]) as u8;
+        ChunkCase { msg, body_kind, cuts, damage, noise: src.word(), paced: src.chance(1, 2) }
+    }
+
+    fn run(&self, case: &ChunkCase) -> Outcome {
+        let rt = tokio::runtime::Builder::new_current_thread().enable_all().build().unwrap();
+        let (n, chunks) = rt.block_on(async {
+            match &case.msg {
+                Msg::Fixed(v) => chunked_fixed(v, case).await,
+                Msg::Text(v) => chunked_text(v, case).await,
+                Msg::Blob(v) => chunked_blob(v, case).await,
+                Msg::Nested(v) => chunked_nested(v, case).await,
+                Msg::Unit(v) => chunked_unit(v, case).await,
+                Msg::Status(c, m) => chunked_status(&status_of(*c, m), case).await,
+            }
+        })?;
+        let mut labels = vec![];
+        labels.push(["intact", "bit_flipped", "truncated", "extended_in_own_chunk", "extended_in_last_chunk"][case.damage as usize]);
+        labels.push(["channel_body", "stream_body", "sized_single_buffer"][case.body_kind as usize]);
+        if chunks >= 3 {
+            labels.push("chunks>=3");
+        }
+        if n > 65_536 {
+            labels.push("frame>64KiB");
+        }
+        Ok(Pass { nontrivial: chunks >= 3 && case.body_kind != 2, labels })
+    }
+
+    fn describe(&self, case: &ChunkCase) -> Value {
+        let d = format!("{:?}", case.msg);
+        let short: String = d.chars().take(300).collect();
+        json!({
+            "message": short,
+            "body": (["channel (no announced length)", "stream (no announced length)", "single buffer with length"][case.body_kind as usize]),
+            "cuts_as_fraction_of_65536": case.cuts,
+            "damage": (["none", "one bit flipped", "truncated", "extra bytes in a chunk of their own", "extra bytes in the last chunk"][case.damage as usize]),
+            "noise": case.noise,
+            "paced": case.paced,
+        })
+    }
+
+    fn rule(&self) -> &'static str {
+        "the six message types of part frames (values empty to 1 MiB); the frame of a value is handed to \
+         RequestContents::from_body (entry point of the server for requests and of the client for replies) as a hyper \
+         body of 1-12 chunks (generated cut points incl. empty chunks) built as a channel or a stream (no announced \
+         length) or as one sized buffer, optionally with a yield between chunks; the frame is intact, has one bit \
+         flipped, is truncated, or is extended by 1-9 bytes (in the last chunk or in a chunk of their own); oracle: an \
+         intact frame yields a view whose bytes and deserialised value equal what was sent; a frame shorter than root + \
+         trailer or whose trailer does not match (independent CRC32) is refused with an invalid-payload status; \
+         non-trivial = >= 3 chunks without an announced length"
+    }
+}
+
 pub fn parts() -> Vec<Box<dyn DynPart>> {
-    vec![Box::new(Gen::new(Frames, 6_000, 300_000))]
+    vec![Box::new(Gen::new(Frames, 6_000, 300_000)), Box::new(Gen::new(Chunked, 300_000, 10_000_000))]
 }
